@@ -3,5 +3,7 @@ CONSTANTS
   SampleN <- MCSampleN
   SampleDur = {0, 1, 5}
   MaxSamples = 3
-INVARIANTS Conservation NoDivisionByZero LargestUnitThatFits SplitOK EmitCase
+  MedianVals = {1, 2, 3, 5}
+  MaxMedianOps = 6
+INVARIANTS MedianOfLastThree Conservation NoDivisionByZero LargestUnitThatFits SplitOK EmitCase
 CHECK_DEADLOCK FALSE
